@@ -118,7 +118,9 @@ def check_one(ctx, M, kind, adt, ext_trait, tr, meth):
     st_place = scan.self_field(st_f)
     variants = None
     for e in bi.switches:
-        if e["kind"] == "discr" and e["subject"] == st_place:
+        s_ = e["subject"]
+        on_state = s_ == st_place or (s_[0] == "call" and s_[1] in (("core::mem::replace", "replace"), ("core::mem::take", "take")) and s_[2] and s_[2][0] == st_place)
+        if e["kind"] == "discr" and on_state:
             variants = [l for l in e["edges"] if l != "otherwise"] + e.get("otherwise_names", [])
     ctx.require(variants and init in variants, "%s: match on self.%s with variants" % (where, st_f))
     flag_edges = {}
